@@ -61,6 +61,18 @@ PROPS = {
         "shards": {"quick": 16, "thorough": 16}, "timeout": {"quick": 600, "thorough": 8000},
         "floors": {"quick": {"agent_request_transmissions_observed": 30, "feature_sets_checked": 6, "updown_states_checked": 3}, "thorough": {"agent_request_transmissions_observed": 800}},
     },
+    "C13": {
+        "test": "TestVerif_C13", "level": "exploration",
+        "rule": "(i) the notifier alone: intervals 20-120 ms, 25-55 reports over 1-5 F-SEIDs with gaps drawn around the interval, stamps around Notify; (ii) full path BESS: 8-byte little-endian F-SEIDs written to a harness unixpacket socket; (iii) full path UP4: DigestList with UE addresses pushed on the P4Runtime stream; 3-7 sessions per scenario whose downlink FAR is buffer+notify / buffer / forward, PDR order varied, unknown F-SEIDs/addresses interleaved, bursts of reports, sentinel session closing the window; Session Report Requests decoded at the peer socket; distinct = <interval class, F-SEIDs, forwarded, suppressed> and <datapath, sessions, reports, forwards>",
+        "shards": {"quick": 12, "thorough": 16}, "timeout": {"quick": 600, "thorough": 12000},
+        "floors": {"quick": {"notifier_reports": 5000, "datapath_reports_injected": 300, "session_report_requests_seen": 40}, "thorough": {"notifier_reports": 300000}},
+    },
+    "C14": {
+        "test": "TestVerif_C14", "level": "exploration",
+        "rule": "histories of FAR updates (tunnel change to one of 4 gNBs, same tunnel again, forward->buffer, flag on/off, flags IE with the bit clear, 1-2 FARs per message, unknown FAR id with the flag, injected datapath write failure on UP4) on sessions with arbitrary earlier tunnels, both datapaths; packets taken from the harness unixpacket socket / PacketOut and decoded as Ethernet/IPv4/UDP/GTPv1-U; sentinel update closes each window; distinct = <datapath, FARs in message, flagged FARs, accepted, unknown id>",
+        "shards": {"quick": 12, "thorough": 16}, "timeout": {"quick": 600, "thorough": 12000},
+        "floors": {"quick": {"modifications": 300, "end_markers_seen": 300}, "thorough": {"modifications": 20000}},
+    },
     "C10": {
         "test": "TestVerif_C10", "level": "exploration",
         "rule": "scenario = {0..n associations (some >100)} x {0-3 sessions} x trigger per association {release, silence->read timeout(+heartbeat failure), unanswered heartbeats, live} x requests in flight x datapath reply delay x PFCPIface.Stop() at a drawn offset (+-3.5 ms around the coinciding triggers), fresh agent per scenario, plus a 'refresh' family (association ends without Stop, same address:port associates afresh, bystander association checked); distinct = distinct interleaving signatures (datapath, heartbeat on/off, delay, stop offset in ms, multiset of per-association <trigger, order relative to Stop, release answered?, sessions>)",
